@@ -274,6 +274,9 @@ def worker(job):
             for k in range(max(4, nrandom // 2)):
                 asyncio.run(filelock_case(part, r, m))
                 asyncio.run(withwrite_case(part, r))
+            for k in range(max(3, nrandom // 3)):
+                with guarded(part, 'C20 threading lock', dict(scenario='threading-rwlock', seed=seed)):
+                    threading_case(part, r)
     finally:
         m.close()
     return part.result()
@@ -432,6 +435,70 @@ async def withwrite_case(part, r):
         backends.rmtree(d)
 
 
+def threading_case(part, r):
+    """the threading twin of the read-write lock (what the maildir backend gets from the executor subsystem), on real threads: one task per
+    thread, arrival order and leaving order scripted with events; who is inside is sampled by the tasks themselves"""
+    import threading
+    import time
+    from pymap.concurrent import ReadWriteLock
+    lock = ReadWriteLock.for_threading()
+    n = r.choice([3, 3, 4])
+    kinds = [r.choice('rrw') for _ in range(n)]
+    if 'w' not in kinds:
+        kinds[r.randrange(n)] = 'w'
+    order = list(range(n))
+    r.shuffle(order)                      # arrival order
+    hold = [r.choice([0.0, 0.05, 0.12]) for _ in range(n)]
+    inside = {}
+    guard = threading.Lock()
+    problems = []
+    entered = []
+    errors = []
+
+    async def section(i):
+        cm = lock.read_lock() if kinds[i] == 'r' else lock.write_lock()
+        async with cm:
+            with guard:
+                inside[i] = kinds[i]
+                entered.append(i)
+                if 'w' in inside.values() and len(inside) > 1:
+                    problems.append(dict(inside))
+            time.sleep(hold[i])
+            with guard:
+                if 'w' in inside.values() and len(inside) > 1:
+                    problems.append(dict(inside))
+                inside.pop(i, None)
+
+    def run(i):
+        loop = asyncio.new_event_loop()
+        try:
+            loop.run_until_complete(section(i))
+        except BaseException as exc:      # noqa
+            errors.append((i, repr(exc)))
+        finally:
+            loop.close()
+    threads = {i: threading.Thread(target=run, args=(i,), daemon=True) for i in range(n)}
+    for i in order:
+        threads[i].start()
+        time.sleep(0.03)                  # arrivals are ordered; whoever is inside stays a little
+    stuck = []
+    for i, t in threads.items():
+        t.join(5.0)
+        if t.is_alive():
+            stuck.append(i)
+    case = dict(scenario='threading-rwlock', kinds=kinds, order=order, hold=hold)
+    part.case(key='thr:' + repr((kinds, order, hold)), nontrivial=True)
+    part.stat('threading-rwlock-cases')
+    if problems:
+        part.violation('monitor', f'threading read-write lock: a writer\'s section overlapped another section: {problems[0]} (kinds {kinds}, arrival order {order}, hold {hold})', case,
+                       signature='thr-overlap')
+    if errors:
+        part.violation('monitor', f'threading read-write lock: a section ended with {errors[0]} (kinds {kinds}, arrival order {order})', case, signature='thr-error')
+    if stuck:
+        part.violation('monitor', f'threading read-write lock: tasks {stuck} never got the lock although every holder leaves (kinds {kinds}, arrival order {order})', case,
+                       signature='thr-deadlock')
+
+
 def all_programs(ntasks, maxlen):
     secs = [p for n in range(1, maxlen + 1) for p in itertools.product([True, False], repeat=n)]
     seen = set()
@@ -448,7 +515,7 @@ def all_programs(ntasks, maxlen):
 def run(ctx):
     ctx.rep.rule = RULE
     ctx.rep.assumptions = ['asyncio.Lock behaves as in CPython 3.12 (FIFO hand-off, a cancelled waiter wakes the next): the model of it is validated by this correspondence, not proved',
-                           'only the asyncio variant of the read-write lock is modelled; the threading twin has the same shape and the same repair',
+                           'only the asyncio variant of the read-write lock is modelled; the threading twin (repaired: D76) is exercised on real threads with scripted arrival orders, not modelled',
                            'FileLock: exclusion between writers rests on O_EXCL of the filesystem; readers only wait for the file to be absent (as documented)']
     progs = all_programs(2, 2)
     if not ctx.quick:
